@@ -4,6 +4,7 @@
 package kit
 
 import (
+	"encoding/json"
 	"fmt"
 	"go/ast"
 	"go/token"
@@ -75,6 +76,25 @@ func Load(lc LoadConfig) (*Prog, error) {
 	}
 	if lc.GOARCH != "" {
 		env = append(env, "GOARCH="+lc.GOARCH, "CGO_ENABLED=0")
+	}
+	if ov := os.Getenv("SIOT_OVERLAY"); ov != "" && lc.Overlay == nil {
+		// self-test only: JSON object {"<abs path>": "<file with replacement content>"}
+		b, err := os.ReadFile(ov)
+		if err != nil {
+			return nil, err
+		}
+		var m map[string]string
+		if err := json.Unmarshal(b, &m); err != nil {
+			return nil, err
+		}
+		lc.Overlay = map[string][]byte{}
+		for k, v := range m {
+			c, err := os.ReadFile(v)
+			if err != nil {
+				return nil, err
+			}
+			lc.Overlay[k] = c
+		}
 	}
 	cfg := &packages.Config{
 		Mode:    mode,
